@@ -44,8 +44,13 @@ def handleCen : P String := do
     let positive := arcs.all fun x => x.2.2 > 0
     -- the betweenness definition enumerates paths (exponential): small graphs only; the closeness definition is
     -- polynomial (Bellman-Ford distances) and is evaluated on the graphs of the parallel code path as well
+    -- above the enumeration limit the definition's value is obtained through `C05_full_statement_reachable`: on a store built
+    -- through the mutation API (this one is: `newFrom`), with hop counts or positive weights, the Brandes model *is* the value of
+    -- the definition - so its answer is printed as the specification's, and a differing implementation is a failing input
+    let byTheorem (norm : Bool) : String := match s.betweenness weighted norm with | .ok out => pRatMap out | _ => "*"
     let sfB :=
-      if nn.length > specLimit || !positive then [("bc0:q", "*"), ("bc1:q", "*")]
+      if !positive then [("bc0:q", "*"), ("bc1:q", "*")]
+      else if nn.length > specLimit then [("bc0:q", byTheorem false), ("bc1:q", byTheorem true)]
       else [("bc0:q", pRatMap (bcSpec nn arcs sp.directed false)), ("bc1:q", pRatMap (bcSpec nn arcs sp.directed true))]
     let sfC :=
       if nn.length > 64 || !positive then [("cc0:q", "*"), ("cc1:q", "*")]
